@@ -1,3 +1,4 @@
+pub mod c02;
 pub mod c12;
 
 use crate::engine::Ctx;
@@ -12,6 +13,7 @@ pub fn dispatch(ctx: &Ctx, replay: Option<&str>) -> i32 {
         };
     }
     match ctx.id.as_str() {
+        "C02" => p!(c02),
         "C12" => p!(c12),
         other => {
             eprintln!("MACHINERY: unknown property {}", other);
